@@ -4,6 +4,11 @@ Static theorems: coq/theories/Props/C15.v (soundness of the normaliser / the boo
 Per run:
  (1) translator (harness/translate/models_dsl.py, fail-closed) over the six model files: every function of the
      committed list (harness/props/c15_nesting.json, "functions") must still exist, expose __param_names__ and translate;
+     calls of module-level HELPER functions (functions of the model file without __param_names__ that build size functions /
+     temporaries, e.g. a factored-out `_IM_size_funcs(s, nu1, nu2, T, nuPre=1)`) are INLINED - arguments bound with the helper's
+     current signature, its frame single-assignment, anything else refused - so that the nesting / symmetry / name-semantics /
+     concrete-semantics obligations judge the refactored model; a time function used after a name it reads was re-bound is
+     refused (Python closures bind late, the translation inlines at the definition);
  (2) Coq obligations (vm_compute inside Coq, one boolean per item):
        wf:<model>        params_match_names && scalars_tfree && (parameters without effect = committed expectation)
        nest:<pair>       nests A sigma complex simple           for every committed nesting pair; two-sided pairs (the simple model
@@ -13,6 +18,14 @@ Per run:
      non-negative spectrum of the requested shape with extrap_x set; accepts exactly len(__param_names__) parameters;
      each nesting pair compared at the nesting point (exact: 1e-10 relative); symmetric models under label exchange at two
      time steps (operator-splitting error must shrink).
+ (7) SEARCH after a broken translation / obligation: for every model that could not be translated, or one of whose obligations
+     (well-formedness, a committed nesting, the label exchange, the name semantics) fails on the current source, EVERY committed
+     nesting of that model (as complex and as simple side; the committed parameter names stand in for a model without
+     translation) and its committed symmetry are evaluated on the real code at 3 further GENERIC vectors (gen_generic: sizes a
+     factor >= 2 away from 1, alternately above and below and pairwise different; fractions away from 1/2; rates and selection
+     coefficients non-zero and pairwise different; times 40-100% of their share of the step budget) before "no failing input
+     found" is reported for it.  The ordinary vectors (gen_params) never draw a size inside (0.8, 1.25): a slip in the scaling
+     by a size (nuPre*(1-s) written as 1-s) is invisible at the reference size 1 and nearly so around it.
  (5) concrete semantics (coq/theories/Model/ProgSem.v; theorems in Props/C15Concrete.v): for every model that returns a spectrum, the REAL
      function func(params, ns, pts) (no extrapolation; Integration.timescale_factor = 0.125, grids of 6-10 points, sample sizes 2-4,
      dyadic in-bounds parameters; 1 vector per model in quick, 3 in thorough) against run_prog -- the composition of the executable
@@ -60,6 +73,10 @@ def gen_params(rng, names, budget_steps, Tmax=3.0):
         k = M.kind_of(n)
         if k == 'pos':
             vals[n] = float('%.4g' % (10 ** rng.uniform(-2, 2)))
+            # never a size near the reference size 1 (a slip in the scaling by a size - nuPre*(1-s) written as (1-s) - is
+            # invisible at 1 and nearly so around it): the band (0.8, 1.25) is mapped out of itself, same PRNG stream
+            if 0.8 < vals[n] < 1.25:
+                vals[n] = float('%.4g' % (vals[n] * 2 if vals[n] >= 1 else vals[n] / 2))
         elif k == 'frac':
             vals[n] = round(rng.uniform(0.05, 0.95), 4)
         elif n.startswith('gamma'):
@@ -79,6 +96,38 @@ def gen_params(rng, names, budget_steps, Tmax=3.0):
             vals[n] = float('%.4g' % rng.uniform(0, tcap / max(1, nT) * 2))
         if n not in vals:
             vals[n] = round(rng.uniform(0.1, 0.9), 4)
+    return [vals[n] for n in names]
+
+def gen_generic(rng, names, budget_steps, variant, Tmax=3.0):
+    """a GENERIC in-bounds vector for the search after a broken translation / obligation: sizes at least a factor 2 away from 1
+    (alternately above and below, pairwise different), fractions away from 1/2, migration rates and selection coefficients
+    non-zero and pairwise different, every time between 40% and 100% of its share of the step budget (never ~0)"""
+    vals = {}
+    kpos = kfr = kg = km = 0
+    for n in names:
+        k = M.kind_of(n)
+        if k == 'pos':
+            e = rng.uniform(1.0, 3.3) + 0.07 * kpos
+            vals[n] = float('%.4g' % (2.0 ** (e if (kpos + variant) % 2 == 0 else -e))); kpos += 1
+        elif k == 'frac':
+            vals[n] = round(rng.uniform(0.15, 0.38) if (kfr + variant) % 2 == 0 else rng.uniform(0.62, 0.85), 4); kfr += 1
+        elif n.startswith('gamma'):
+            vals[n] = round(-rng.uniform(0.5, 5.0) - 0.3 * kg if (kg + variant) % 3 != 2 else rng.uniform(0.3, 1.5), 3); kg += 1
+        elif n.startswith('m'):
+            vals[n] = round(rng.uniform(0.4, 2.5) + 0.6 * ((km + variant) % 4), 3); km += 1
+    nus = [v for n, v in vals.items() if M.kind_of(n) == 'pos'] + [1.0]
+    if 's' in vals:
+        nus += [vals['s'], 1 - vals['s']]
+    ms = sum(v for n, v in vals.items() if n.startswith('m'))
+    gs = max([abs(v) for n, v in vals.items() if n.startswith('gamma')] + [0])
+    rate = max(0.25 / min(nus), ms, gs, 1e-9)
+    tcap = min(Tmax, budget_steps * 1e-3 / rate)
+    nT = sum(1 for n in names if n.startswith('T'))
+    for n in names:
+        if n.startswith('T'):
+            vals[n] = float('%.4g' % (rng.uniform(0.4, 1.0) * tcap / max(1, nT) * 2))
+        if n not in vals:
+            vals[n] = round(rng.uniform(0.15, 0.4), 4)
     return [vals[n] for n in names]
 
 def dims_of(prog):
@@ -121,7 +170,8 @@ def run(ctx):
     t_start = time.time()
     ctx.rule = ('inputs = (model function, parameter vector drawn inside the documented bounds from one PRNG, sample sizes 4-6 per '
                 'population, grid 16-24 points (12-14 for three populations)); nesting pairs and symmetric models from the committed '
-                'list harness/props/c15_nesting.json; concrete-semantics cases = (function, dyadic in-bounds parameter vector, grid 6-10 points, sample sizes 2-4, '
+                'list harness/props/c15_nesting.json (sizes never inside (0.8, 1.25); after a broken translation / obligation of a model all its committed '
+                'nestings and its symmetry again at 3 generic vectors: sizes a factor >= 2 from 1, fractions away from 1/2, distinct non-zero rates); concrete-semantics cases = (function, dyadic in-bounds parameter vector, grid 6-10 points, sample sizes 2-4, '
                 'timescale_factor 0.125) from a PRNG stream of their own; distinct = distinct (function, parameter vector); all are non-trivial')
     ctx.assumptions += [
         'documented parameter bounds: nu in [1e-2,100], T in [0,3], m in [0,10], fractions in (0,1); the kinds are read off the declared names (nu*: >0, T*, m*: >=0, s/f/F: in (0,1), gamma*: free)',
@@ -180,6 +230,11 @@ def run(ctx):
             ctx.obligation('translate %s (new function)' % key, False, 'translator', str(e))
             broken_models[key] = 'translator refused: %s' % e
     ctx.count('functions_translated', len(progs))
+    nh = sorted(k for k, r in progs.items() if r.get('helpers'))
+    ctx.count('functions_calling_module_level_helpers (inlined)', len(nh))
+    if nh:
+        ctx.notes.append('models that call module-level helper functions (inlined by the translator): %s' % '; '.join(
+            '%s -> %s' % (k.split(':')[-1], ', '.join(h.split(':')[-1] for h in progs[k]['helpers'])) for k in nh[:8]))
     ctx.obligation('function count did not shrink (%d committed)' % len(data['functions']),
                    all('%s:%s' % (f['file'], f['name']) in progs or '%s:%s' % (f['file'], f['name']) in broken_models for f in data['functions'])
                    and not any(v.startswith('function or its') for v in broken_models.values()), 'translator',
@@ -358,11 +413,58 @@ def run(ctx):
                          'cparams': q, 'sparams': p, 'ns': [4] * d, 'pts': 12 if d >= 3 else 16, '_cost': 100})
             meta[jid] = (key, nme, p, q, None)
 
-    # nesting pairs: all in thorough; in quick the findings, every pair whose obligation failed, and a rotating subset
+    # nesting pairs: every committed pair in both tiers (they are cheap: small grids, short times)
+    committed_names = {'%s:%s' % (f['file'], f['name']): list(f['param_names']) for f in data['functions']}
+    def names_of(mk):
+        return progs[mk]['param_names'] if mk in progs else committed_names.get(mk)
+    def guess_dims(mk):
+        """number of populations of a model; for a model that could not be translated: that of a committed nesting partner, else
+        read off the file name / the committed parameter names"""
+        if mk in progs:
+            return dims_of(progs[mk]['prog'])
+        # both sides of a nesting have the same number of populations: follow the committed pairs to a translated model
+        todo, seen_ = [mk], {mk}
+        while todo:
+            cur = todo.pop(0)
+            for pr in data['pairs']:
+                for a, b in ((pr['complex'], pr['simple']), (pr['simple'], pr['complex'])):
+                    if a == cur and b not in seen_:
+                        if b in progs:
+                            return dims_of(progs[b]['prog'])
+                        seen_.add(b); todo.append(b)
+        low = mk.lower(); nm = committed_names.get(mk) or []
+        if '3d' in low: return 3
+        if '2d' in low: return 2
+        if '1d' in low: return 1
+        return 2 if any(re.fullmatch(r'm12|m21|nu2\w*|s', x) for x in nm) else 1
+    def inbreeding(mk):
+        return uses_inbreeding(progs[mk]['prog']) if mk in progs else True       # unknown: even sample sizes suit both
+    def file_name(mk):
+        rel, nm = mk.rsplit(':', 1)
+        return rel, nm
+    def add_pair_job(pr, su, tag, rg, q, cost_mult=1):
+        d = guess_dims(pr['simple'])
+        if su['two_sided']:
+            # times as multiples of 2^-10 (sums/differences of times at the point are then exact in floating point);
+            # a time / rate the pair assumes > 0 is kept > 0
+            for i, n in enumerate(su['common']):
+                if n.startswith('T'):
+                    q[i] = round(q[i] * 1024) / 1024.0
+                if i in su['A']['pos'] and M.kind_of(n) == 'nonneg' and q[i] <= 0:
+                    q[i] = 1 / 1024.0
+        ps = [N.evaluate(e, q) for e in su['sgs']]
+        pc = [N.evaluate(e, q) for e in su['sgc']]
+        ns = [rg.choice([4, 5]) for _ in range(d)]
+        if inbreeding(pr['complex']) or inbreeding(pr['simple']):
+            ns = [rg.choice([4, 6]) for _ in range(d)]       # sample sizes must be multiples of the ploidy (2)
+        pts = rg.choice([12, 14]) if d >= 3 else rg.choice([16, 20])
+        jid = 'pair|%s|%s' % (pr['id'], tag)
+        (cf, cn), (sf, sn) = file_name(pr['complex']), file_name(pr['simple'])
+        jobs.append({'id': jid, 'kind': 'pair', 'cfile': cf, 'cname': cn, 'sfile': sf, 'sname': sn,
+                     'cparams': pc, 'sparams': ps, 'ns': ns, 'pts': pts, '_cost': 2 * (pts ** d) * 2})
+        meta[jid] = (pr, ps, pc, ns, pts)
     pairs = [pr for pr in data['pairs'] if pr['id'] in pair_sg]
-    chosen = []
-    chosen = pairs           # every committed pair in both tiers (they are cheap: small grids, short times)
-    for pr in chosen:
+    for pr in pairs:
         c, s = progs[pr['complex']], progs[pr['simple']]
         su = pair_sg[pr['id']]
         d = dims_of(s['prog'])
@@ -377,44 +479,92 @@ def run(ctx):
             q = gen_params(rg, su['common'], budget // 2 if d < 3 else budget // 4)
             if v >= nbase:
                 spread_apart(q, su['common'], concerned, v - nbase)
-            if su['two_sided']:
-                # times as multiples of 2^-10 (sums/differences of times at the point are then exact in floating point);
-                # a time / rate the pair assumes > 0 is kept > 0
-                for i, n in enumerate(su['common']):
-                    if n.startswith('T'):
-                        q[i] = round(q[i] * 1024) / 1024.0
-                    if i in su['A']['pos'] and M.kind_of(n) == 'nonneg' and q[i] <= 0:
-                        q[i] = 1 / 1024.0
-            ps = [N.evaluate(e, q) for e in su['sgs']]
-            pc = [N.evaluate(e, q) for e in su['sgc']]
-            ns = [rg.choice([4, 5]) for _ in range(d)]
-            if uses_inbreeding(c['prog']) or uses_inbreeding(s['prog']):
-                ns = [rg.choice([4, 6]) for _ in range(d)]       # sample sizes must be multiples of the ploidy (2)
-            pts = rg.choice([12, 14]) if d >= 3 else rg.choice([16, 20])
-            jid = 'pair|%s|%d' % (pr['id'], v)
-            jobs.append({'id': jid, 'kind': 'pair', 'cfile': c['file'], 'cname': c['name'], 'sfile': s['file'], 'sname': s['name'],
-                         'cparams': pc, 'sparams': ps, 'ns': ns, 'pts': pts, '_cost': 2 * (pts ** d) * 2})
-            meta[jid] = (pr, ps, pc, ns, pts)
+            add_pair_job(pr, su, '%d' % v, rg, q)
     # symmetric models
+    def add_sym_job(sm, names, d, tag, p):
+        sg = [parse_point_value(sm['exchange'][n], names) for n in names]
+        # moderate migration so that the splitting error is visible but the coarse grid still resolves the model
+        p = [min(v, 3.0) if n.startswith('m') else v for n, v in zip(names, p)]
+        p2 = [N.evaluate(e, p) for e in sg]
+        ns = [4, 6, 5][:d]
+        perm = sm['perm'].get(str(d), list(range(d)))
+        jid = 'sym|%s%s' % (sm['model'], tag)
+        rel, nm = file_name(sm['model'])
+        jobs.append({'id': jid, 'kind': 'sym', 'file': rel, 'name': nm, 'params': p, 'params2': p2, 'ns': ns, 'perm': perm,
+                     'pts': 12 if d >= 3 else 16, 'tfs': [1e-3, 1.5625e-5], '_cost': 12 * ((12 if d >= 3 else 16) ** d)})
+        meta[jid] = (sm, p, p2, ns, perm)
     syms = [sm for sm in data['symmetric'] if sm['model'] in progs]
     for sm in syms:
         r = progs[sm['model']]
         names = r['param_names']
         d = dims_of(r['prog'])
         try:
-            sg = [parse_point_value(sm['exchange'][n], names) for n in names]
+            [parse_point_value(sm['exchange'][n], names) for n in names]
         except (KeyError, ValueError):
             continue
-        p = gen_params(rng, names, 300 if d < 3 else 150)
-        # moderate migration so that the splitting error is visible but the coarse grid still resolves the model
-        p = [min(v, 3.0) if n.startswith('m') else v for n, v in zip(names, p)]
-        p2 = [N.evaluate(e, p) for e in sg]
-        ns = [4, 6, 5][:d]
-        perm = sm['perm'].get(str(d), list(range(d)))
-        jid = 'sym|%s' % sm['model']
-        jobs.append({'id': jid, 'kind': 'sym', 'file': r['file'], 'name': r['name'], 'params': p, 'params2': p2, 'ns': ns, 'perm': perm,
-                     'pts': 12 if d >= 3 else 16, 'tfs': [1e-3, 1.5625e-5], '_cost': 12 * ((12 if d >= 3 else 16) ** d)})
-        meta[jid] = (sm, p, p2, ns, perm)
+        add_sym_job(sm, names, d, '', gen_params(rng, names, 300 if d < 3 else 150))
+
+    # ---- SEARCH after a broken translation / obligation -------------------------------------------------------------------
+    # a model that could not be translated, or one of whose obligations (well-formedness, a committed nesting, the label
+    # exchange, the name semantics) fails on the current source: EVERY committed nesting of that model (as complex and as
+    # simple side; for a model without translation the committed parameter names stand in) and its committed symmetry are
+    # evaluated on the real code at further GENERIC vectors (sizes a factor >= 2 away from 1, fractions away from 1/2, rates
+    # and selection coefficients non-zero and pairwise different, times never ~0) before "no failing input found" is said
+    suspects = {}
+    for key, why in broken_models.items():
+        suspects[key] = why
+    for key, why in wf_failed.items():
+        suspects.setdefault(key, 'well-formedness obligation fails')
+    for pr in data['pairs']:
+        if pr.get('expect') != 'finding' and pr['id'] in nest_ok and not nest_ok[pr['id']]:
+            for mk in (pr['complex'], pr['simple']):
+                suspects.setdefault(mk, 'nesting obligation %s fails' % pr['id'])
+    for sm in data['symmetric']:
+        if sm['model'] in sym_ok and not sym_ok[sm['model']]:
+            suspects.setdefault(sm['model'], 'label-exchange obligation fails')
+    for key in names_failed:
+        suspects.setdefault(key, 'name semantics changed')
+    search_pairs = [pr for pr in data['pairs'] if pr.get('expect') != 'finding' and (pr['complex'] in suspects or pr['simple'] in suspects)]
+    search_syms = [sm for sm in data['symmetric'] if sm['model'] in suspects]
+    nsearch = 3 if len(search_pairs) <= 60 else 2 if len(search_pairs) <= 140 else 1
+    searched = {}           # model key -> number of search jobs planned for it
+    for pr in search_pairs:
+        cn_, sn_ = names_of(pr['complex']), names_of(pr['simple'])
+        if cn_ is None or sn_ is None:
+            continue
+        su = pair_sg.get(pr['id'])
+        if su is None:
+            try:
+                su = K.pair_setup(pr, cn_, sn_)
+            except (KeyError, ValueError):
+                continue           # already reported: the point does not fit the current names
+        d = guess_dims(pr['simple'])
+        for v in range(nsearch):
+            rg = random.Random('C15-search-%d-%s-%d' % (ctx.seed, pr['id'], v))
+            q = gen_generic(rg, su['common'], budget // 2 if d < 3 else budget // 4, v)
+            add_pair_job(pr, su, 's%d' % v, rg, q)
+            for mk in (pr['complex'], pr['simple']):
+                if mk in suspects:
+                    searched[mk] = searched.get(mk, 0) + 1
+    for sm in search_syms:
+        names = names_of(sm['model'])
+        if names is None:
+            continue
+        d = guess_dims(sm['model'])
+        try:
+            [parse_point_value(sm['exchange'][n], names) for n in names]
+        except (KeyError, ValueError):
+            continue
+        for v in range(nsearch):
+            rg = random.Random('C15-search-%d-%s-%d' % (ctx.seed, sm['model'], v))
+            add_sym_job(sm, names, d, '|s%d' % v, gen_generic(rg, names, 300 if d < 3 else 150, v))
+            searched[sm['model']] = searched.get(sm['model'], 0) + 1
+    if suspects:
+        ctx.count('search: models with a broken translation or obligation', len(suspects))
+        ctx.count('search: nesting pairs re-run at generic vectors', len(search_pairs) * nsearch)
+        ctx.count('search: symmetries re-run at generic vectors', len(search_syms) * nsearch)
+        ctx.notes.append('search after broken translation / obligations: %d model(s) (%s); %d committed nestings and %d symmetries of them at %d generic vectors each' % (
+            len(suspects), '; '.join('%s: %s' % (k.split(':')[-1], w[:60]) for k, w in sorted(suspects.items())[:6]), len(search_pairs), len(search_syms), nsearch))
 
     if ctx.replay:
         rp = json.load(open(ctx.replay))
@@ -425,9 +575,12 @@ def run(ctx):
             jobs = [jb for jb in jobs if jb['kind'] == 'pair' and meta[jb['id']][0].get('expect') == 'finding']
             meta = {jb['id']: meta[jb['id']] for jb in jobs}
         elif isinstance(inp, dict) and inp.get('job'):
-            j = dict(inp['job']); jobs = [j]
-            # keep only the meta entry of the replayed job (if it is part of this run's plan it is re-used, else minimal)
-            meta = {j['id']: meta.get(j['id'])} if j['id'] in meta else {j['id']: None}
+            j = dict(inp['job'])
+            # the replayed job (its meta entry is re-used if it is part of this run's plan, else minimal), and the pairs committed
+            # as findings, so that the obligations they explain are reported as known findings
+            keep = [jb for jb in jobs if jb['kind'] == 'pair' and jb['id'] != j['id'] and meta[jb['id']][0].get('expect') == 'finding']
+            meta = dict({jb['id']: meta[jb['id']] for jb in keep}, **{j['id']: meta.get(j['id'])})
+            jobs = keep + [j]
     t_num = time.time()
     res = run_jobs(jobs)
     ctx.notes.append('numerical jobs: %d in %.1fs' % (len(jobs), time.time() - t_num))
@@ -529,18 +682,23 @@ def run(ctx):
                     at += ' with %s at %s' % (sn, {k: v for k, v in pr['simple_point'].items() if k != v})
                 byname = {}
                 for side, mk, vec in (('complex', pr['complex'], pc), ('simple', pr['simple'], ps)):
-                    if mk in progs and len(progs[mk]['param_names']) == len(vec):
-                        byname[side] = dict(zip(progs[mk]['param_names'], vec))
+                    nm_ = names_of(mk)
+                    if nm_ is not None and len(nm_) == len(vec):
+                        byname[side] = dict(zip(nm_, vec))
                 sem = '; '.join('%s: %s' % (mk.split(':')[-1], names_failed[mk]['msg']) for mk in dict.fromkeys((pr['complex'], pr['simple'])) if mk in names_failed)
+                vkey = pr.get('key') if fnd else 'nesting:%s' % pr['id']
+                for mk in (pr['complex'], pr['simple']):
+                    if not fnd:
+                        models_with_input.add(mk)
+                if jid.split('|')[-1].startswith('s') and any(v['key'] == vkey and not v['no_input'] for v in ctx.violations):
+                    ctx.count('search: further failing vectors of a nesting already reported')
+                    continue
                 ctx.violation('%s%r differs from %s%r by %.3g of the largest entry (ns=%s, pts=%d): %s is not nested at %s%s%s' % (
                               cn, tuple(pc), sn, tuple(ps), rel, ns, pts, sn, at,
                               ' [parameters by name: %s(%s) vs %s(%s)]' % (cn, ', '.join('%s=%r' % kv for kv in byname['complex'].items()),
                                                                            sn, ', '.join('%s=%r' % kv for kv in byname['simple'].items())) if len(byname) == 2 else '',
                               ' [name semantics changed: %s]' % sem if sem else ''),
-                              data={'job': job, 'result': r, 'pair': pr, 'params_by_name': byname}, key=pr.get('key') if fnd else 'nesting:%s' % pr['id'])
-                for mk in (pr['complex'], pr['simple']):
-                    if not fnd:
-                        models_with_input.add(mk)
+                              data={'job': job, 'result': r, 'pair': pr, 'params_by_name': byname}, key=vkey)
         elif kind == 'probe':
             key, nme, p, q, _ = m if m[0] is not None else (jid.split('|')[1], jid.split('|')[2], job['sparams'], job['cparams'], None)
             name = key.split(':')[-1]
@@ -566,6 +724,10 @@ def run(ctx):
             ctx.obligation('numeric %s: label exchange = transposed spectrum up to a splitting error that shrinks with the time step' % jid, ok, 'predicate',
                            'errors %.3g (timescale_factor 1e-3), %.3g (1.5625e-5)' % (e1, e2))
             if not ok:
+                models_with_input.add(sm['model'])
+                if jid.split('|')[-1].startswith('s') and any(v['key'] == 'symmetry:%s' % sm['model'].split(':')[-1] and not v['no_input'] for v in ctx.violations):
+                    ctx.count('search: further failing vectors of a symmetry already reported')
+                    continue
                 ctx.violation('%s%r with labels exchanged (%r, ns permuted by %s) differs from the transposed spectrum by %.3g at timescale_factor=1e-3 and %.3g at 1.5625e-5: not a splitting error' % (
                               sm['model'].split(':')[-1], tuple(p), tuple(p2), perm, e1, e2), data={'job': job, 'result': r}, key='symmetry:%s' % sm['model'].split(':')[-1])
     ctx.stats['worst_negative_over_max_on_finest_grid'] = worst_neg
@@ -575,11 +737,15 @@ def run(ctx):
         ctx.err('nesting pair', int(math.floor(math.log2(worst_pair))), 'tol 1e-10 relative to the largest entry')
 
     # ---- broken obligations without a numerical counterpart -------------------------------------------
-    viol_keys = {v['key'] for v in ctx.violations}
+    viol_keys = {v['key'] for v in ctx.violations if not v['no_input']}
+    def searched_note(key):
+        n = searched.get(key, 0)
+        return (' (searched: %d runs of its committed nestings / symmetry at generic parameter vectors, sizes away from 1 - none fails)' % n) if n else \
+               ' (no committed nesting or symmetry involves this model)'
     for key, why in broken_models.items():
         name = key.split(':')[-1]
-        if not any(k and name in k for k in viol_keys):
-            ctx.violation('model %s: %s' % (key, why), data={'model': key, 'reason': why}, key=None, no_input=True, broken='translate %s' % key)
+        if key not in models_with_input and not any(k and re.search(r'(^|[:>~])%s([#:>~]|$)' % re.escape(name), k) for k in viol_keys):
+            ctx.violation('model %s: %s%s' % (key, why, searched_note(key)), data={'model': key, 'reason': why}, key=None, no_input=True, broken='translate %s' % key)
     for key, why in wf_failed.items():
         name = key.split(':')[-1]
         viol_keys = {v['key'] for v in ctx.violations}
